@@ -133,7 +133,7 @@ pub fn scenario_digest(seed: u64) -> u64 {
 
 pub fn run(p: &Params) -> Report {
     let mut rep = Report::new("C03");
-    rep.rule = "cases = (state, set of transactions, proposer action): sets of 1-5 members under ALL permutations (every permutation on every rayon pool of 1/2/4/16 threads up to 4 members, on the 1-thread pool and a rotating second pool for 5), sets of up to 16 (thorough: 40) members under 10 (thorough: 24) random permutations; members independent, chained, DAG-shaped, with one invalid member, with a duplicate. All outcomes (accepted?, sealed header) must be equal, and equal to applying the members one at a time in dependency order; the block built from the outcome is applied to the parent 6 times with its HashSet rebuilt (fresh iteration order) and must give the same header every time; one block of 600 (thorough: 1400) transactions half of which spend the other half's outputs is applied 6 times; a seeded scenario is re-run in 2 fresh processes and must give the same digest. Non-trivial = set with >= 2 members; distinct by member hashes. The thorough tier repeats the workload under ThreadSanitizer".into();
+    rep.rule = "cases = (state, set of transactions, proposer action): sets of 1-5 members under ALL permutations (every permutation on every rayon pool of 1/2/4/16 threads up to 4 members, on the 1-thread pool and a rotating second pool for 5), sets of up to 16 (thorough: 40) members under 10 (thorough: 24) random permutations; members independent, chained, DAG-shaped, with one invalid member, with a duplicate. All outcomes (accepted?, sealed header) must be equal, and equal to applying the members one at a time in dependency order; the block built from the outcome is applied to the parent 6 times with its HashSet rebuilt (fresh iteration order) and must give the same header every time; one block of 600 (thorough: 1400) transactions half of which spend the other half's outputs is applied 6 times; every set is also evaluated on a shadow chain (same coins, other headers) before and after the first chain has validated it, with equal results required; a seeded scenario is re-run in 2 fresh processes and must give the same digest. Non-trivial = set with >= 2 members; distinct by member hashes. The thorough tier repeats the workload under ThreadSanitizer".into();
     let total = p.n(120, 4000);
     let mine = p.share(total);
     let mut rng = Rng::new(p.shard_seed() ^ 0xC03);
@@ -158,6 +158,16 @@ pub fn run(p: &Params) -> Report {
         w.profile.max_batch = if case % 4 == 0 { if p.thorough { 40 } else { 16 } } else { 5 };
         let mut r = Rng::new(case_seed ^ 3);
         let blocks = 2 + r.usize(4);
+        // a shadow chain: the same coins and history, but another header at the starting height (and so at every later
+        // one). It is fed the same sets. A set's outcome on the shadow must not depend on what this process has done in
+        // between - in particular not on having validated the same transactions on the first chain
+        let mut shadow: Option<Unsealed> = w.tip.as_ref().and_then(|tip| {
+            let mut blk = tip.to_block();
+            blk.header.fee_pool = melstructs::CoinValue(blk.header.fee_pool.0 ^ 1);
+            let stakes = tip.raw_stakes();
+            let db = w.db.clone();
+            guarded(move || melstf::SealedState::from_block(&blk, &stakes, &db).next_unsealed()).ok()
+        });
         for _ in 0..blocks {
             if w.dead {
                 break;
@@ -222,6 +232,7 @@ pub fn run(p: &Params) -> Report {
                     })
                     .collect()
             };
+            let shadow_before = shadow.as_ref().map(|sh| batch_outcome(sh, &txs, action, &pools[0].1));
             let t_exec = std::time::Instant::now();
             let mut outcomes: Vec<(usize, usize, Outcome)> = vec![];
             let mut panicked = false;
@@ -315,6 +326,34 @@ pub fn run(p: &Params) -> Report {
                     break;
                 }
                 _ => {}
+            }
+            // the shadow chain again, after all of the above ran in this process
+            if let (Some(sh), Some(Ok(before))) = (shadow.as_ref(), shadow_before.as_ref()) {
+                rep.eval();
+                rep.count("sets re-evaluated on a shadow chain after the first chain had validated them");
+                if txs.iter().any(|t| t.kind == melstructs::TxKind::DoscMint) {
+                    rep.count("sets with a mint re-evaluated on a shadow chain");
+                }
+                if let Ok(after) = batch_outcome(sh, &txs, action, &pools[0].1) {
+                    if after.map(|h| h.hash().0) != before.map(|h| h.hash().0) {
+                        rep.violate(
+                            &format!("C03|outcome-depends-on-earlier-work-of-the-process|apply_tx_batch|{}", cls),
+                            "the same set applied to the same state gave another outcome after this process had validated the set on another chain".into(),
+                            wit(json!({"shadow_before": before.as_ref().map(header_json), "shadow_after": after.as_ref().map(header_json)})),
+                        );
+                        break;
+                    }
+                }
+            }
+            // the shadow follows: same set (whatever it makes of it), same action
+            if let Some(sh) = shadow.take() {
+                let txs2 = txs.clone();
+                shadow = guarded(move || {
+                    let mut sh = sh;
+                    let _ = sh.apply_tx_batch(&txs2);
+                    sh.seal(action).next_unsealed()
+                })
+                .ok();
             }
             // commit the set to the world, seal, and replay the block against its parent with fresh HashSets
             let ev = w.apply_batch(txs.clone(), labels.clone());
